@@ -36,7 +36,7 @@ def run(ctx):
     # ---- kernels (reduced C11), in a thread
     def kernels():
         c11.run_kernels(ctx, "c07", "quick", kernels=[k for k in c11.KERNELS if not k.startswith("pub_")] + ["pub_fused_addassign_mul_scalar_binary"],
-                        const_scalars=(0x53,), slices=(), timeout_s=600, mem_gb=14)
+                        const_scalars=(0x53,), slices=(), timeout_s=600 if not thorough else 2400, mem_gb=14 if not thorough else 24)
     saved = c11.lengths_of
 
     def one_length(kernel, tier):
